@@ -23,6 +23,11 @@ def make_stream(rng, n_msgs, big=False):
     out = []
     for i in range(n_msgs):
         r = rng.random()
+        if big == "burst":
+            m = DiameterRequest(command_code=316, application_id=16777251)          # bare headers, told apart by their identifiers
+            m.header.hop_by_hop = (100000 + i).to_bytes(4, "big")
+            out.append(("app", m.dump()))
+            continue
         if big and rng.random() < 0.6:
             # a message of exactly k * 64 KiB (header 20 + AVP header 8 + data, no padding): read sizes at buffer-size multiples
             k = rng.choice([1, 1, 2, 4])
@@ -65,6 +70,8 @@ def segment(rng, stream, mode):
             n = rng.choice([100, 400, 1000, 5000])
         elif mode == "64k":
             n = rng.choice([65536, 65536, 65536, 131072, 32768, 262144])
+        elif mode == "burst":
+            n = rng.choice([len(stream), 16384])
         else:
             n = rng.choice([1, 2, 3, 5, 19, 20, 21, 40, 100, 400])
         cuts.append(stream[pos:pos + n])
@@ -79,7 +86,7 @@ def scenario(seed, n_msgs, mode, lines, coalesce=False):
     from bromelia.setup import Diameter
     from bromelia.base import DiameterMessage
     from bromelia.messages import CEA
-    s = simlib.Sim(seed=seed, trace_files=("bromelia/transport.py", "bromelia/setup.py") if lines else (), max_steps=150000)
+    s = simlib.Sim(seed=seed, trace_files=("bromelia/transport.py", "bromelia/setup.py") if lines else (), max_steps=150000 if mode != "burst" else 1500000)
     s.keep_log = False
     rng = random.Random(seed * 11 + 3)
     log = []
@@ -108,7 +115,7 @@ def scenario(seed, n_msgs, mode, lines, coalesce=False):
         self.__dict__["_recv_data_stream_value"] = v
     TR.TcpConnection._recv_data_stream = property(_get_rs, _set_rs)
     d = Diameter(config=dict(CFG))
-    sent = make_stream(rng, n_msgs, big=(mode == "64k"))
+    sent = make_stream(rng, n_msgs, big=("burst" if mode == "burst" else mode == "64k"))
     n_app = sum(1 for k, _ in sent if k == "app")
     got = []
     state = {"cea": False, "chunks": [], "cea_taken": False, "cea_len": 0}
@@ -282,19 +289,24 @@ def check_handoff(chk, res, k, how, tag):
         chk.violation("the application did not receive the delivered messages once and in order", inp, list(range(k)), res["order"])
 
 
-def explore(chk, rng, n, tag):
+def explore(chk, rng, n, tag, bursts=0):
     import logging
     logging.disable(logging.CRITICAL)
     lines, meta = [], []
-    for _ in range(n):
+    for it in range(n + bursts):
         if chk.saturated():
             break
         seed = rng.randrange(2 ** 30)
         n_msgs = rng.choice([1, 3, 6, 12])
         mode = rng.choice(["bytes", "small", "mixed", "mixed", "big", "64k"])
+        if it >= n:
+            # a burst: far more messages in one or two reads than any queue bound a sane implementation would pick
+            mode, n_msgs = "burst", rng.choice([1100, 2300])
         if mode == "64k":
             n_msgs = min(n_msgs, 3)
         lines_mode = rng.random() < 0.25
+        if mode == "burst":
+            lines_mode = False
         if mode == "bytes" and lines_mode:
             n_msgs = min(n_msgs, 3)                  # one byte per read under line-level hand-over is slow: keep it within the budget
         coalesce = rng.random() < 0.4
@@ -359,7 +371,7 @@ def run(chk):
                     "the CEA is the first message of the modelled stream; in 40% of the runs the messages travel in the same segments as the CEA"]
     quick = chk.tier == "quick"
     explore_handoff(chk, rng, 400 if quick else 20000, 60 if quick else 2000, "sweep")
-    explore(chk, rng, 90 if quick else 2500, "sweep")
+    explore(chk, rng, 90 if quick else 2500, "sweep", bursts=1 if quick else 6)
 
     def search():
         explore_handoff(chk, rng, 1500, 200, "search")
